@@ -85,11 +85,14 @@ type scenario struct {
 	Inlinable bool
 	Privacy   bool
 	FlagsHow  int // which public way sets the flags (vlib.SetFlagsVia)
-	PrevSkip  int // -1: none; otherwise SetSkip(PrevSkip) is called before the final skip is set
+	// LateSkip (SetSkip only): the skip count is set AFTER the log/slog handler and the std log bridge
+	// were built on the logger - it is a property of the logger, consulted per record
+	LateSkip bool
+	PrevSkip int // -1: none; otherwise SetSkip(PrevSkip) is called before the final skip is set
 }
 
 func (s scenario) String() string {
-	return fmt.Sprintf("%s format=%s logger=%s skip=%d(%s, previous SetSkip %d) wrappers=%d inlinable=%v privacy=%v", sites[s.Site].Name, s.Format, s.Kind, s.Skip, s.SkipHow, s.PrevSkip, s.Depth, s.Inlinable, s.Privacy)
+	return fmt.Sprintf("%s format=%s logger=%s skip=%d(%s, previous SetSkip %d, set after adapters were built=%v) wrappers=%d inlinable=%v privacy=%v", sites[s.Site].Name, s.Format, s.Kind, s.Skip, s.SkipHow, s.PrevSkip, s.LateSkip, s.Depth, s.Inlinable, s.Privacy)
 }
 
 func run(t vlib.TB, test string, sc scenario) {
@@ -112,7 +115,8 @@ func run(t vlib.TB, test string, sc scenario) {
 	if sc.PrevSkip >= 0 {
 		lg.SetSkip(sc.PrevSkip) // an earlier skip count must not survive the next SetSkip / leak into a WithSkip child
 	}
-	if sc.Skip > 0 || sc.SkipHow == "SetSkip" || sc.PrevSkip >= 0 {
+	late := sc.LateSkip && sc.SkipHow == "SetSkip"
+	if (sc.Skip > 0 || sc.SkipHow == "SetSkip" || sc.PrevSkip >= 0) && !late {
 		if sc.SkipHow == "WithSkip" {
 			parent := lg
 			lg = lg.WithSkip(sc.Skip)
@@ -155,6 +159,9 @@ func run(t vlib.TB, test string, sc scenario) {
 		if sc.Kind == "default" {
 			c.lg = slog.Default()
 		}
+	}
+	if late {
+		lg.SetSkip(sc.Skip)
 	}
 	vlib.SetFlagsVia(sc.FlagsHow, flags, slog.Lcaller|slog.Llineno|slog.Lcallerpackagename|slog.Lprivacypath) // after NewSlogHandler, which edits the caller flag
 
@@ -268,6 +275,7 @@ func TestSampled(t *testing.T) {
 		sc.Privacy = rapid.IntRange(0, 3).Draw(t, "privacy") != 0
 		sc.PrevSkip = rapid.SampledFrom([]int{-1, -1, 0, 1, 3}).Draw(t, "previousSkip")
 		sc.FlagsHow = rapid.SampledFrom([]int{0, 0, 1, 2, 3}).Draw(t, "flagsHow")
+		sc.LateSkip = rapid.Bool().Draw(t, "skipSetAfterAdaptersBuilt")
 		run(t, "TestSampled", sc)
 	})
 }
@@ -288,6 +296,11 @@ func TestMatrix(t *testing.T) {
 								}
 								run(t, "TestMatrix", scenario{Site: si, Format: f, Kind: k, Skip: skip, SkipHow: how, Depth: depth, Inlinable: inl, Privacy: true, PrevSkip: -1})
 								n++
+								if how == "SetSkip" && !inl && depth == skip && (sites[si].Kind == "bridge" || sites[si].Kind == "adapter" || sites[si].Kind == "adapterpkg") {
+									// the same cell with the skip count set after the handler / bridge was built
+									run(t, "TestMatrix", scenario{Site: si, Format: f, Kind: k, Skip: skip, SkipHow: how, Depth: depth, Inlinable: inl, Privacy: true, PrevSkip: -1, LateSkip: true})
+									n++
+								}
 								if how == "SetSkip" && !inl && depth == 4 {
 									// the same cell after an earlier SetSkip(2) on the same logger
 									run(t, "TestMatrix", scenario{Site: si, Format: f, Kind: k, Skip: skip, SkipHow: how, Depth: depth, Inlinable: inl, Privacy: true, PrevSkip: 2})
